@@ -7,10 +7,12 @@
    - [int(np.ceil x)] is [Zceil x], [int(np.floor x)] is [Zfloor x], [int(x)] on a
      float is [Ztrunc x] (Flocq's definitions);
    - complex128 is Coquelicot's [C]; [np.exp(1j * x)] is [cis x];
-   - [np.zeros(width)] followed by [res[i] += v] / [res[i] = v] loops are written
-     in the closed form "what ends up in res[j]"; each closed form names the source
-     statements it summarises and is re-checked against the implementation by the
-     Interval-certified correspondence of harness/c07.py on every run;
+   - [np.zeros(width)] followed by [res[i] += v] loops: the Gabor and triangular
+     get_impulse_response loops are modelled statement by statement ([gabor_ir_writes],
+     [tri_ir_writes], [acc_read]) and proved equal to the closed forms [gabor_ir], [tri_ir]
+     (ProofsLoops.v); loops of the form "for period: res[idx] += f(idx, period)" are written
+     directly as the sum over the period range; assignment loops ([res[i] = v]) are modelled
+     as "last write wins" ([fr_writes], [read_writes]);
    - scalar constructor formulas are ALSO regenerated from the source by
      gen/c07_filters.py (coq/gen/C07Filters.v); C07/Tie.v proves them equal to the
      definitions below.
@@ -255,6 +257,31 @@ Definition gt_ir (c alpha xi : R) (n : nat) (offset : R) (sup : Z * Z) (W j : Z)
 Definition gt_fr (c alpha xi : R) (n : nat) (offset left_sup right_sup : R) (W idx : Z) : C :=
   Csum (fun period => gt_H c alpha xi n offset (IZR idx * 2 * PI / IZR W + 2 * PI * IZR period))
        (Zfloor (left_sup / 2 / PI)) (Zceil (right_sup / 2 / PI)).
+
+(** * The accumulation loops of get_impulse_response, statement by statement *)
+(* np.zeros(width) followed by "res[i] += v" statements, in order *)
+Definition acc_read (ws : list (Z * C)) (j : Z) : C :=
+  fold_left (fun a iv => if (fst iv =? j)%Z then (a + snd iv)%C else a) ws (RtoC 0).
+(* position of res[-t] in an array of length n, for 1 <= t <= n *)
+Definition py_neg (n t : Z) : Z := (n - t)%Z.
+
+(* GaborFilterBank.get_impulse_response, lines 832-838: for t in range(width + 1) *)
+Definition gabor_ir_writes (l2 : bool) (std xi : R) (W : Z) : list (Z * C) :=
+  flat_map (fun t =>
+              (if (t =? W)%Z then nil else (t, gabor_val l2 std xi t) :: nil) ++
+              (if (t =? 0)%Z then nil else (py_neg W t, Cconj (gabor_val l2 std xi t)) :: nil))
+           (Zrange 0 (W + 1)).
+
+(* TriangularOverlappingFilterBank.get_impulse_response, lines 373-392 *)
+Definition tri_ir_writes (analytic : bool) (l m r : R) (W : Z) : list (Z * C) :=
+  flat_map (fun t =>
+              if (t <? W)%Z then (t, tri_val analytic l m r t) :: (py_neg W t, Cconj (tri_val analytic l m r t)) :: nil
+              else (0%Z, tri_val analytic l m r t) :: nil)
+           (Zrange 1 (W + 1))
+  ++ (0%Z, RtoC (tri_numer0 l m r / 2)) :: nil.
+Definition tri_ir_loop (analytic : bool) (l m r : R) (W j : Z) : C :=
+  (acc_read (tri_ir_writes analytic l m r W) j / RtoC (tri_denom analytic l m r))%C.
+
 
 (** * "outside the advertised support, modulo the buffer / the sampling rate" *)
 Definition outside_mod (lo hi : Z) (W j : Z) : Prop :=
